@@ -124,39 +124,49 @@ fn run_prog(name: &str, prog: &[u8], init: [u16; 4], steps: usize, w: &mut dyn W
   writeln!(w, "{} prog={} init={},{},{},{} steps={} | t={}", name, hex(prog), init[0], init[1], init[2], init[3], steps, t.join(";")).unwrap();
 }
 
-/// `Core::run_frame` with a step cap: (ended, steps, clocks delivered, longest step in clocks)
-fn capped_run_frame(core: &mut Core, cap: usize) -> (bool, usize, u64, u64) {
-  let mut steps = 0usize; let mut clocks = 0u64; let mut mx = 0u64;
-  let mut step = |core: &mut Core| {
-    let d0 = core.memory.io.timer.verif_state().0 & 0xffff;
-    core.update();
-    let d1 = core.memory.io.timer.verif_state().0 & 0xffff;
-    let d = ((d1 + 0x10000 - d0) & 0xffff) as u64;
-    d
-  };
-  while core.memory.io.video.get_current_mode() != 1 {
-    if steps >= cap { return (false, steps, clocks, mx); }
-    let d = step(core); steps += 1; clocks += d; if d > mx { mx = d; }
-  }
-  while core.memory.io.video.get_current_mode() == 1 {
-    if steps >= cap { return (false, steps, clocks, mx); }
-    let d = step(core); steps += 1; clocks += d; if d > mx { mx = d; }
-  }
-  (true, steps, clocks, mx)
-}
-
-fn frame_probe(n0: usize, n1: usize, cap: usize, w: &mut dyn Write) {
+fn frame_program(n0: usize, n1: usize) -> Vec<u8> {
   // n0 NOPs ; JP loop ; loop: n1 NOPs ; JP loop
   let mut prog: Vec<u8> = vec![0x00; n0];
   let lp = 0xc000 + n0 as u16 + 3;
   prog.extend_from_slice(&[0xc3, (lp & 0xff) as u8, (lp >> 8) as u8]);
   for _ in 0..n1 { prog.push(0x00); }
   prog.extend_from_slice(&[0xc3, (lp & 0xff) as u8, (lp >> 8) as u8]);
-  let mut core = setup(&prog, [0x01b0, 0x0013, 0x00d8, 0x014d]);
-  let (e1, s1, k1, m1) = capped_run_frame(&mut core, cap);
-  let (e2, s2, k2, m2) = capped_run_frame(&mut core, cap);
-  writeln!(w, "c09.frame n0={} n1={} cap={} | e1={} s1={} k1={} e2={} s2={} k2={} mx={}", n0, n1, cap,
-    e1 as u32, s1, k1, e2 as u32, s2, k2, m1.max(m2)).unwrap();
+  prog
+}
+
+/// child process: the REAL `Core::run_frame`, twice, under a wall-clock alarm (a call that never returns is killed by SIGALRM);
+/// reports on fd 2 after each call: frames completed by the LCD during the call, LY and mode at return
+pub fn frame_child(opts: &Opts) {
+  let (n0, n1) = (opts.get_usize("n0", 0), opts.get_usize("n1", 0));
+  let mut core = setup(&frame_program(n0, n1), [0x01b0, 0x0013, 0x00d8, 0x014d]);
+  unsafe { libc::alarm(opts.get_usize("alarm", 8) as u32); }
+  let err = std::io::stderr();
+  for k in 1..=2 {
+    let f0 = core.memory.io.video.get_frames_completed();
+    core.run_frame();
+    let f1 = core.memory.io.video.get_frames_completed();
+    let mut e = err.lock();
+    writeln!(e, "R{} f={} ly={} mode={}", k, f1 - f0, core.memory.io.video.get_ly(), core.memory.io.video.get_current_mode()).unwrap();
+    e.flush().unwrap();
+  }
+}
+
+fn frame_probe(n0: usize, n1: usize, cap: usize, w: &mut dyn Write) {
+  let exe = std::env::current_exe().unwrap();
+  let out = std::process::Command::new(&exe).arg("c09.framechild").arg("--n0").arg(n0.to_string()).arg("--n1").arg(n1.to_string())
+    .arg("--alarm").arg("8").stdin(std::process::Stdio::null()).stdout(std::process::Stdio::null()).stderr(std::process::Stdio::piped())
+    .output().unwrap();
+  let so = String::from_utf8_lossy(&out.stderr).to_string();
+  let mut r: Vec<(u32, u64, u32, u32)> = vec![(0, 0, 0, 0), (0, 0, 0, 0)];
+  for l in so.lines() {
+    let t: Vec<&str> = l.split_whitespace().collect();
+    if t.len() == 4 && (t[0] == "R1" || t[0] == "R2") {
+      let g = |x: &str| x.split('=').nth(1).and_then(|v| v.parse::<u64>().ok()).unwrap_or(0);
+      r[if t[0] == "R1" { 0 } else { 1 }] = (1, g(t[1]), g(t[2]) as u32, g(t[3]) as u32);
+    }
+  }
+  writeln!(w, "c09.frame n0={} n1={} cap={} | e1={} f1={} ly1={} m1={} e2={} f2={} ly2={} m2={} blk={}", n0, n1, cap,
+    r[0].0, r[0].1, r[0].2, r[0].3, r[1].0, r[1].1, r[1].2, r[1].3, 4 * (n1 + 4)).unwrap();
 }
 
 fn unhex(s: &str) -> Vec<u8> {
@@ -173,6 +183,7 @@ fn field<'a>(line: &'a str, key: &str) -> &'a str {
 }
 
 pub fn run(sub: &str, opts: &Opts, w: &mut dyn Write) {
+  if sub == "framechild" { return frame_child(opts); }
   if let Some(line) = opts.get("replay-line") {
     // re-run exactly the case whose inputs are in that line
     if sub == "frame" {
